@@ -344,7 +344,15 @@ func (ss *SpecSet) contractsFor(prop string) []*Contract {
 			}
 		}
 	}
-	sort.Slice(out, func(i, j int) bool {
+	for _, c := range ss.Aspects {
+		for _, f := range c.For {
+			if f == prop {
+				out = append(out, c)
+				break
+			}
+		}
+	}
+	sort.SliceStable(out, func(i, j int) bool {
 		if out[i].PkgPath != out[j].PkgPath {
 			return out[i].PkgPath < out[j].PkgPath
 		}
